@@ -18,6 +18,7 @@ import json
 import math
 import os
 import pickle
+import re
 import shutil
 import uuid
 from concurrent.futures import ThreadPoolExecutor
@@ -68,9 +69,9 @@ WORKBASE = os.path.join(tlc.WORK, "c17-files")
 JVM_ENV = {"JAVA_TOOL_OPTIONS": "-XX:CICompilerCount=2 -XX:TieredStopAtLevel=1"}
 NPTYPES = {"NpInt8": np.int8, "NpInt16": np.int16, "NpInt32": np.int32, "NpInt64": np.int64,
            "NpUInt8": np.uint8, "NpUInt16": np.uint16, "NpUInt32": np.uint32, "NpUInt64": np.uint64,
-           "NpFloat16": np.float16, "NpFloat32": np.float32, "NpFloat64": np.float64}
+           "NpFloat16": np.float16, "NpFloat32": np.float32, "NpFloat64": np.float64, "NpLongDouble": np.longdouble}
 INT_T = {"PyInt", "NpInt8", "NpInt16", "NpInt32", "NpInt64", "NpUInt8", "NpUInt16", "NpUInt32", "NpUInt64"}
-FLOAT_T = {"PyFloat", "NpFloat16", "NpFloat32", "NpFloat64"}
+FLOAT_T = {"PyFloat", "NpFloat16", "NpFloat32", "NpFloat64", "NpLongDouble"}
 BOOL_T = {"PyBool", "NpBool"}
 
 
@@ -1086,7 +1087,23 @@ def derived(sg):
     return sg in DERIVED or sg.startswith("second:")
 
 
+_CODEPOINT = re.compile(r"@u\{([0-9a-f]+)\}@")
+
+
+def subst_chars(node):
+    """@u{hex}@ in any text of a case stands for that code point (non-ASCII, astral, lone surrogates): the model treats
+    text as opaque data, the real characters are put in here"""
+    if isinstance(node, dict):
+        return {k: subst_chars(v) for k, v in node.items()}
+    if isinstance(node, list):
+        return [subst_chars(v) for v in node]
+    if isinstance(node, str) and "@u{" in node:
+        return _CODEPOINT.sub(lambda m: chr(int(m.group(1), 16)), node)
+    return node
+
+
 def exec_case(c):
+    c = subst_chars(c)
     wd = os.path.join(WORKBASE, f"{os.getpid()}-{uuid.uuid4().hex[:8]}")
     os.makedirs(wd)
     try:
